@@ -38,6 +38,24 @@ BUILTIN_ENUMS = {
 }
 
 
+_KNOWN_NAMES = None
+
+
+def default_helper_pred():
+    global _KNOWN_NAMES
+    if _KNOWN_NAMES is None:
+        import json
+        import os
+        try:
+            d = json.load(open(os.path.join(os.path.dirname(os.path.abspath(__file__)), "firstparty_names.json")))
+            _KNOWN_NAMES = set(n for v in d.values() for n in v)
+        except (OSError, ValueError):
+            _KNOWN_NAMES = set()
+    if not _KNOWN_NAMES:
+        return None
+    return lambda f: f.short not in _KNOWN_NAMES and not re.search(r"::(fmt|clone|eq|ne|hash|cmp|partial_cmp|default|from|into|drop)$", f.short)
+
+
 def scan_enums(paths):
     """Parse `enum Name { A, B(..), C{..} }` declarations from Rust sources."""
     out = {}
@@ -46,7 +64,10 @@ def scan_enums(paths):
             src = open(p, encoding="utf-8").read()
         except OSError:
             continue
+        # string literals first (token regexes contain `//`, brackets and braces), then comments
+        src = re.sub(r'r#"(?:.|\n)*?"#|r"[^"]*"|"(?:[^"\\\n]|\\.)*"', '""', src)
         src = re.sub(r"//[^\n]*", "", src)
+        src = re.sub(r"/\*(?:.|\n)*?\*/", "", src)
         for m in re.finditer(r"\benum\s+(\w+)\s*(?:<[^>{]*>)?\s*\{", src):
             name = m.group(1)
             i = m.end()
@@ -459,6 +480,9 @@ class Executor:
         self.modules = modules if isinstance(modules, (list, tuple)) else [modules]
         self.enums = enums if isinstance(enums, Enums) else Enums(enums)
         self.inline = [re.compile(x) for x in (inline or [])]
+        # private helpers a refactoring introduced are inlined: every first-party function whose name did not
+        # exist when the lemmas were written (lib/firstparty_names.json, recorded from the pinned tree)
+        self.inline_pred = default_helper_pred()
         self.summaries = summaries
         self.max_paths = max_paths
         self.max_inline_depth = max_inline_depth
@@ -542,7 +566,10 @@ class Executor:
         return ty
 
     def should_inline(self, f):
-        return any(r.search(f.name) for r in self.inline)
+        if any(r.search(f.name) for r in self.inline):
+            return True
+        # private helpers: every first-party function of the dumps that the lemma does not treat as atomic
+        return self.inline_pred is not None and f.kind == "fn" and "{closure" not in f.name and bool(self.inline_pred(f))
 
     # ---- places -----------------------------------------------------------------
     def undef(self, frame, func, local):
